@@ -18,7 +18,7 @@ func init() {
 			"D3 refusals are wired — the default arm of every flag dispatch (sketch decoder, both fallback decoders, mapping.Decode, generic and paginated bin decoders) returns a non-nil error or delegates to a decoder that does; a mapping mismatch returns an error and the mapping is only assigned under the nil-or-Equals guard; every success return of the sketch decoder has passed the missing-mapping test. "+
 			"D4 bin decoders succeed only after the announced number of items: every exit of an item loop is controlled by the decoded count or returns a non-nil error. "+
 			"D5 block order of the exact variant — every path of its Encode reaches the inner sketch's Encode, and the Count block (when written) precedes it: the decoder's final refusal of 'bins without a count' then never hits a prefix cut between blocks. "+
-			"SHARED (obligations of other properties that decide clauses this property states too, re-evaluated here under their home rule ids): C19-D2/D3 (Equals of the three mappings: same-type comma-ok test and the symmetric tolerance table over gamma AND offset of the two operands). C18-D1 (the primitive decoders, unrolled completely: every byte read is preceded by its own length test, end of input is io.EOF with nothing consumed). "+
+			"SHARED (obligations of other properties that decide clauses this property states too, re-evaluated here under their home rule ids): C19-D2/D3 (Equals of the three mappings: same-type comma-ok test and the symmetric tolerance table over gamma AND offset of the two operands). C19-D1 binary part (the reader arm of each mapping flag decodes both float64LE fields and returns each error: a cut inside the mapping block is an error). C18-D1 (the primitive decoders, unrolled completely: every byte read is preceded by its own length test, end of input is io.EOF with nothing consumed). "+
 			"NOT DECIDED: panics from absurd-but-well-formed input (an index of 2^62 handed to a dense store); enumeration of truncation points is replaced by the every-path argument.",
 		"one obligation per (call site × path class) for D1, per decoder arm for D3, per loop exit for D4; non-trivial = required a path or dominance evaluation",
 		false, runC08)
@@ -66,6 +66,62 @@ func runC08(c *Ctx) {
 	c.shared(func() { c10Decode(c, a) }, func(o *Obligation) bool { return true })
 	c08ExactOrder(c, a)
 	c08LoopExit(c, a)
+	c08MappingArm(c, a)
+	// a cut inside the mapping block is an error: its reader decodes the flag's two float64LE fields, each error returned
+	c.shared(func() { c19Binary(c, mappingInfos(c, "C08")) }, func(o *Obligation) bool { return true })
+}
+
+// c08MappingArm: every mapping block is DECODED — by mapping.Decode with the block's own flag, which carries the kind —
+// before anything is decided about it. A shortcut that recognises "the receiver's own mapping" from the payload bytes
+// alone skips the kind (and the undefined kinds) the flag byte announces.
+func c08MappingArm(c *Ctx, a *sketchAnchors) {
+	const rule = "C08-D3"
+	f := c.blockLoop(a)
+	if f == nil {
+		return
+	}
+	ps, _ := execPlain(c, f, nil, 1)
+	n := 0
+	bad := ""
+	for _, p := range ps {
+		armSeq := -1
+		var flagT *Term
+		for _, cd := range p.Conds {
+			t := cd.Term
+			if t.isBin("==") && cd.Taken {
+				for i := 0; i < 2; i++ {
+					if g := t.Args[i]; g.Op == "global" && strings.HasSuffix(g.Sym, ".FlagTypeIndexMapping") {
+						armSeq = cd.Seq
+						if ty := t.Args[1-i]; isMethodCall(ty, "Type") && len(ty.Args) == 1 {
+							flagT = ty.Args[0]
+						}
+					}
+				}
+			}
+		}
+		if armSeq < 0 {
+			continue
+		}
+		n++
+		decoded := false
+		for _, e := range p.Calls() {
+			if e.Seq > armSeq && e.Call.Op == "call" && strings.HasSuffix(e.Call.Sym, "mapping.Decode") && len(e.Call.Args) == 2 {
+				if flagT == nil || sameVal(e.Call.Args[1], flagT) || e.Call.Args[1].Key() == flagT.Key() {
+					decoded = true
+				} else {
+					bad = "the mapping block is decoded with a flag that is not its own: " + e.Call.Args[1].Key()
+				}
+				break
+			}
+			if e.Seq > armSeq && !e.Pure && e.Kind == "call" {
+				break // something else happened first
+			}
+		}
+		if !decoded && !p.Panics {
+			bad = firstNonEmpty(bad, "a path through the mapping arm does not decode the block with mapping.Decode: ["+pathSig(p)+"]")
+		}
+	}
+	c.R.check(bad == "" && n > 0, rule, shortFn(f)+"/mapping-arm-decodes", shortFn(f), c.fpos(f), "every path through the mapping arm first decodes the block with mapping.Decode and the block's own flag", firstNonEmpty(bad, fmt.Sprintf("%d path(s) through the arm", n)))
 }
 
 // moduleErrCallee: the callee (static or interface method) is declared in the module and returns an error.
